@@ -415,6 +415,7 @@ func (m *Uint64Map) EachItem(f func(id uint64, tagged []Tagged, goroutine int) e
 			Tags: make([]Tagged, 0, m.MaxBucketLength()/8),
 		}
 		var err error
+	reading:
 		for bucket := range buckets {
 			m.fillIDsAndTagged(bucket, &ids)
 			if len(ids.IDs) > 0 {
@@ -422,13 +423,13 @@ func (m *Uint64Map) EachItem(f func(id uint64, tagged []Tagged, goroutine int) e
 				for i := 1; i < len(ids.IDs); i++ {
 					if ids.IDs[i] != ids.IDs[start] {
 						if err = f(ids.IDs[start], ids.Tags[start:i], goroutine); err != nil {
-							break
+							break reading
 						}
 						start = i
 					}
 				}
 				if err = f(ids.IDs[start], ids.Tags[start:], goroutine); err != nil {
-					break
+					break reading
 				}
 			}
 		}
@@ -445,11 +446,12 @@ func (m *Uint64Map) EachItem(f func(id uint64, tagged []Tagged, goroutine int) e
 	for i := 0; i < goroutines; i++ {
 		go readBuckets(i)
 	}
+feeding:
 	for bucket := 0; bucket < m.Layout.SentinelBucket(); bucket++ {
 		select {
 		case buckets <- bucket:
 		case <-cancel:
-			break
+			break feeding
 		}
 	}
 	close(buckets)
